@@ -100,8 +100,7 @@ def ensure_built(verbose: bool = False) -> dict:
     assumptions = parse_assumptions(r.stdout)
     for p in sorted((COQ / "props").glob("C*.v")):
         pid = p.stem
-        ok = p.with_suffix(".vo").exists()
-        status["props"][pid] = {"compiled": ok, "assumptions": assumptions.get(pid, [])}
+        status["props"][pid] = {"compiled": vo_fresh(f"props/{pid}.v"), "assumptions": assumptions.get(pid, [])}
     # model + extraction are needed for the correspondence whatever happens to the proofs
     ext_ml = COQ / "extract" / "dlmodel.ml"
     if not (COQ / "extract" / "Extract.vo").exists() or not ext_ml.exists():
@@ -126,6 +125,17 @@ def ensure_built(verbose: bool = False) -> dict:
     if verbose:
         print(f"built in {status['build_s']}s; make rc={status['make_rc']}", file=sys.stderr)
     return status
+
+
+def vo_fresh(rel: str) -> bool:
+    """A file counts as compiled when its .vo exists and is not older than its own source or the source of
+    anything it depends on (a failed recompilation leaves a stale .vo behind)."""
+    for f in dep_closure(rel):
+        vo = (COQ / f).with_suffix(".vo")
+        if not vo.exists():
+            return False
+    top = (COQ / rel).with_suffix(".vo").stat().st_mtime
+    return all((COQ / f).stat().st_mtime <= top + 1e-6 for f in dep_closure(rel))
 
 
 def parse_assumptions(_make_stdout: str) -> dict[str, list[str]]:
@@ -462,7 +472,7 @@ def proof_status(prop: str, build: dict) -> dict:
                     n += 1
                     if f.startswith("props/"):
                         theorems.append(ls.split(":")[0].strip())
-    compiled = bool(info.get("compiled")) and all((COQ / f).with_suffix(".vo").exists() for f in closure)
+    compiled = bool(info.get("compiled")) and vo_fresh(f"props/{prop}.v")
     return {
         "compiled": compiled,
         "obligations": n,
